@@ -43,9 +43,9 @@ def build():
     s.sub.rle = cc.ListField(cc.IntField(), required=True, default=[])
     s.sub.a = cc.IntField()
     s.sub.deep.on = cc.FeatureFlagField(default=True)
-    s.sub.deep.r = cc.StringField(required=True)
+    s.sub.deep.r = cc.StringField(required=True, min_len=0)          # a length bound that permits the empty string does not lift the requirement
     item = cc.Schema()
-    item.r = cc.StringField(required=True)
+    item.r = cc.StringField(required=True, min_len=0, transform_strip=True)
     item.n = cc.IntField()
     s.items = cc.ListField(item)
     ts = cc.Schema()
@@ -249,7 +249,7 @@ def leaf_alphabets(tier):
         "ri": [ABSENT, None, 7] if full else [ABSENT, 7],
         "rl": [ABSENT, None, [], [1]] if full else [ABSENT, [], [1]],
         "rd": [ABSENT, None, {}, {"q": 2}] if full else [ABSENT, {}],
-        "r": [ABSENT, None, "", "deep"] if full else [ABSENT, None, "deep"],
+        "r": [ABSENT, None, "", "deep"] if full else [ABSENT, "", "deep"],
         "re": [ABSENT, "given"],
         "rle": [ABSENT, [7]],
     }
@@ -268,6 +268,7 @@ def side_inputs(tier):
         {"items": [bad_n]},
         {"items": []},
         {"t": {"r": None}},
+        {"items": [{"r": "", "n": 1}]},
     ]
     if tier == "thorough":
         base += [{"x": 2, "y": 2, "a": 10}, {"items": [bad_r]}, {"t": {}}, {"a": 11, "fv": 2}, {"items": [good, good, bad_n]}]
@@ -355,6 +356,7 @@ def jobs(tier):
     for fi, flags in enumerate(flagsets):
         out.append({"name": "flags/%02d" % fi, "flags": list(flags), "tier": tier, "kind": "load"})
     out.append({"name": "inserts", "kind": "inserts", "tier": tier})
+    out.append({"name": "growth", "kind": "growth", "tier": tier})
     return out
 
 
@@ -368,6 +370,9 @@ def run_job(job, ctx):
         job = dict(single["jobparams_full"]); job["only"] = single["only"]
     if job["kind"] == "inserts":
         _inserts(job, ctx)
+        return
+    if job["kind"] == "growth":
+        _growth(job, ctx)
         return
     tier = job["tier"]
     flags = [ABSENT if f == ABSENT else f for f in job["flags"]]
@@ -503,6 +508,86 @@ def _why(reasons):
 def _shape(model):
     s = node_status(model)
     return "root=%s,sub=%s,deep=%s" % (s[""], s["sub"], s["sub.deep"])
+
+
+def _growth(job, ctx):
+    """the schema gains a required field (with a recording validator) after the configuration object was built, at the
+    root / one / two levels down / in the item schema; a load or explicit validation on the old object and on a new one
+    may only return when that field has a value and its validator ran"""
+    import cincoconfig as cc
+    only = job.get("only")
+    for where in ("", "sub", "sub.deep", "items[]"):
+        for given in (ABSENT, None, "", "late-value"):
+            for obj in ("old", "new"):
+                for call in ("load_tree", "loads/json", "validate", "collect"):
+                    ident = [where, given, obj, call]
+                    if only is not None and only != ident:
+                        continue
+                    schema = build()
+                    old = schema()
+                    old.load_tree(copy.deepcopy(VALID_TREE))
+                    target = schema
+                    if where == "items[]":
+                        target = schema._fields["items"].field
+                    else:
+                        for part in [x for x in where.split(".") if x]:
+                            target = getattr(target, part)
+                    target.late = cc.StringField(required=True)
+                    seen = []
+
+                    @cc.validator(target.late)
+                    def v_late(cfg, value, seen=seen):
+                        seen.append(value)
+                        return value
+                    cfg = old if obj == "old" else schema()
+                    tree = copy.deepcopy(VALID_TREE)
+                    node = tree
+                    if where == "items[]":
+                        node = tree["items"][0]
+                    else:
+                        for part in [x for x in where.split(".") if x]:
+                            node = node[part]
+                    if given is not ABSENT:
+                        node["late"] = given
+                    if call in ("validate", "collect") and (obj == "new" or where == "items[]"):
+                        continue          # items are held to the rule when they are loaded or inserted, not by a later validate()
+                    ctx.transitions += 1
+                    errs = None
+                    try:
+                        if call == "load_tree":
+                            cfg.load_tree(tree)
+                        elif call == "loads/json":
+                            cfg.loads(json.dumps(tree), "json")
+                        elif call == "validate":
+                            cfg.validate()
+                        else:
+                            errs = cfg.validate(collect_errors=True)
+                        raised = None
+                    except Exception as exc:  # noqa
+                        raised = exc
+                    returned = raised is None and not errs
+                    ctx.case(("growth", where, repr(given), obj, call), "growth:%s" % ("returned" if returned else "raised"), True)
+                    if not returned:
+                        continue
+                    case = _case(job, ident)
+                    holder = cfg
+                    try:
+                        if where == "items[]":
+                            holder = cfg.items[0]
+                        else:
+                            for part in [x for x in where.split(".") if x]:
+                                holder = getattr(holder, part)
+                        value = holder.late
+                    except Exception as exc:  # noqa
+                        value = None
+                    if not value:
+                        ctx.violation("C11|growth|%s|%s|returned-without-value" % (where or "root", call),
+                                      "the schema gained a required field %s.late after the configuration was built; %s on the %s object (late=%r in the tree) returned although the field has no value"
+                                      % (where or "<root>", call, obj, given), case)
+                    elif call.startswith("load") and given == "late-value" and "late-value" not in seen:
+                        ctx.violation("C11|growth|%s|%s|validator-not-run" % (where or "root", call),
+                                      "%s on the %s object returned without running the late field's validator" % (call, obj), case)
+    ctx.sample({"growth": ["", "sub", "sub.deep", "items[]"]})
 
 
 def _inserts(job, ctx):
